@@ -122,6 +122,49 @@ def rex_subsets(maxn):
         for sub in itertools.combinations(range(n), k):
             yield list(sub)
 
+# ---- FORM of a path argument (constraints_path of verify_df / detect_df,
+# outpath of detect_df): the same file named as a str, as a relative str, as
+# a pathlib.Path, as a pure path and as a minimal os.PathLike object.  (bytes
+# paths are not in the alphabet: nothing documents them.)
+PATH_FORMS = ['str', 'relative-str', 'pathlib.Path', 'pathlib.PurePosixPath',
+              'os.PathLike']
+
+
+class FsPath(object):
+    """The smallest os.PathLike: nothing but __fspath__."""
+
+    def __init__(self, path):
+        self._path = path
+
+    def __fspath__(self):
+        return self._path
+
+    def __repr__(self):
+        return 'FsPath(%r)' % self._path
+
+
+def path_in_form(path, form):
+    """Absolute str path -> the same file in the given argument form."""
+    import os
+    import pathlib
+    if form in (None, 'str'):
+        return path
+    if form == 'relative-str':
+        return os.path.relpath(path)
+    if form == 'pathlib.Path':
+        return pathlib.Path(path)
+    if form == 'pathlib.PurePosixPath':
+        return pathlib.PurePosixPath(path)
+    if form == 'os.PathLike':
+        return FsPath(path)
+    raise ValueError(form)
+
+
+# ---- observations of one verification result object (C02 'observe'): the
+# ways the statement says a result can be looked at
+OBSERVATIONS = ['totals', 'counts', 'fields', 'frame', 'str']
+
+
 PRECISIONS = [None, 'open', 'closed', 'fuzzy']
 EPSILONS = [0, 0.01, 0.25, 0.5]
 SUFFIX = {'type': 'type', 'min': 'min', 'min_length': 'min_length',
